@@ -103,6 +103,9 @@ V_C18(pst, r) == LET pre == Abs(pst)  post == Abs(r.st)  c == [k |-> r.k, a |-> 
 V_C15(pst, r) ==
          (IF Len(r.st.rbase) <= 1 THEN {} ELSE {"InconsistentBase"})
     \cup (IF r.st.rok = 1 THEN {} ELSE {"BytesChanged"})
+    (* ... and what a held reference denoted is still what a fresh lookup of its offset returns (decidable even *)
+    (* when the mapping has moved, which is the known finding)                                                  *)
+    \cup (IF r.st.rfresh = 1 THEN {} ELSE {"DenotedBytesChanged"})
     \cup (IF /\ r.k \notin {"reopen", "rebuild"} /\ pst.nheld > 0
              /\ Len(pst.rbase) = 1 /\ Len(r.st.rbase) = 1 /\ pst.rbase # r.st.rbase
           THEN (IF r.k \in {"store", "pstore"} /\ r.st.flen > pst.flen THEN {"MovedAtGrowth"}
